@@ -182,7 +182,8 @@ Fixpoint seg_loop (m : marks) (b : bmap) (times : list Z) (i : nat) (ts : list Z
   match ts with
   | ss :: ((se :: _) as rest) =>
       let st := fold_left (step_boundary m b times i ss se) (bget se b) st in
-      let st := if ss =? 0 then mkSS (upd_nth i (si_set_type TLEAP_END) (ss_infos st)) (ss_cvrs st) (ss_cvend st) (ss_cvtotal st) else st in
+      (* "the first segment is always a leap destination (da capo)": ss == boundary_times[0] *)
+      let st := if Nat.eqb i 0 then mkSS (upd_nth i (si_set_type TLEAP_END) (ss_infos st)) (ss_cvrs st) (ss_cvend st) (ss_cvtotal st) else st in
       seg_loop m b times (S i) rest st
   | _ => st
   end.
@@ -234,7 +235,9 @@ Fixpoint finish_segs (i : Z) (infos : list seginfo) : list seg :=
 Definition make_segments (m : marks) : list seg :=
   let b := boundaries m in
   let times := zsort (map fst b) in
-  let st := seg_loop m b times O times (mkSS (init_infos times) 0 0 0) in
+  (* current_volta_repeat_start = boundary_times[0]: an ending that repeats without a repeat sign
+     repeats from the beginning *)
+  let st := seg_loop m b times O times (mkSS (init_infos times) (hd0 times) 0 0) in
   finish_segs 0 (ss_infos st).
 
 (* ------------------------------------------------------------------ *)
@@ -444,9 +447,19 @@ Fixpoint variant_go (objs : list obj) (vs : list (Z * Z)) (k off : Z) (acc : lis
   | (s, e) :: r => variant_go objs r (k + 1) (off + (e - s)) (visit objs k s e off acc)
   end.
 
-Definition variant (objs : list obj) (vs : list (Z * Z)) : list nobj := variant_go objs vs 0 0 [].
-
 Definition total_len (vs : list (Z * Z)) : Z := fold_right (fun v a => (snd v - fst v) + a) 0 vs.
+
+(* the copies before their ends are clamped *)
+Definition variant_raw (objs : list obj) (vs : list (Z * Z)) : list nobj := variant_go objs vs 0 0 [].
+
+(* tp_end = part.get_or_add_point(min(o.end.t + delta, self.t_unfold)): an object that continues after
+   the end of its segment never ends after the end of the unfolded part *)
+Definition clip_end (T : Z) (n : nobj) : nobj :=
+  mkN (n_id n) (n_visit n) (n_extra n) (n_cls n) (n_start n) (option_map (Z.min T) (n_end n))
+      (n_sig n) (n_attrs n) (n_refs n).
+
+Definition variant (objs : list obj) (vs : list (Z * Z)) : list nobj :=
+  map (clip_end (total_len vs)) (variant_raw objs vs).
 
 (* visits of a path: (start, end) of each segment id; None for an unknown id *)
 Fixpoint visits_of (segs : list seg) (p : list Z) : option (list (Z * Z)) :=
@@ -466,9 +479,57 @@ Definition id_suffix (all : list nobj) (n : nobj) : Z :=
   else 0.
 
 (* ------------------------------------------------------------------ *)
+(* 4. quarter durations of the unfolded part (create_variant_part: set_quarter_duration(offset,
+      quarter_duration_map(start)) followed by the shifted entries of quarter_durations(start, end)) *)
+
+Definition qtab := list (Z * Z).          (* (time, divisions per quarter), in list order *)
+
+(* the value in force at t: the last entry, in list order, whose time is <= t (an entry set later
+   at the same time replaces the earlier one); d when there is none *)
+Definition qd_at (d : Z) (tbl : qtab) (t : Z) : Z :=
+  last (map snd (filter (fun p => fst p <=? t) tbl)) d.
+
+Fixpoint variant_qd_go (d : Z) (tbl : qtab) (vs : list (Z * Z)) (off : Z) : qtab :=
+  match vs with
+  | [] => []
+  | (s, e) :: r =>
+      ((off, qd_at d tbl s)
+         :: map (fun p => (fst p - s + off, snd p)) (filter (fun p => (s <? fst p) && (fst p <? e)) tbl))
+      ++ variant_qd_go d tbl r (off + (e - s))
+  end.
+
+Definition variant_qd (d : Z) (tbl : qtab) (vs : list (Z * Z)) : qtab := variant_qd_go d tbl vs 0.
+
+(* normal form of a table with non-decreasing times: of several entries at one time the last one
+   counts, and an entry repeating the value in force is dropped; two tables with the same normal
+   form have the same value in force everywhere from the first time on *)
+Fixpoint keep_last_per_time (tbl : qtab) : qtab :=
+  match tbl with
+  | [] => []
+  | p :: r => match r with
+              | q :: _ => if fst p =? fst q then keep_last_per_time r else p :: keep_last_per_time r
+              | [] => [p]
+              end
+  end.
+
+Fixpoint drop_repeats (cur : option Z) (tbl : qtab) : qtab :=
+  match tbl with
+  | [] => []
+  | (t, q) :: r => match cur with
+                   | Some c => if c =? q then drop_repeats cur r else (t, q) :: drop_repeats (Some q) r
+                   | None => (t, q) :: drop_repeats (Some q) r
+                   end
+  end.
+
+Definition qnorm (tbl : qtab) : qtab := drop_repeats None (keep_last_per_time tbl).
+
+Definition zz_eqb (a b : Z * Z) : bool := (fst a =? fst b) && (snd a =? snd b).
+
+(* ------------------------------------------------------------------ *)
 (* canonical rows for the correspondence *)
 
-(* oid, cls, start, end, (pitch, voice, staff), id suffix, refs with targets (oid, start of the target copy) *)
+(* oid, cls, start, end, (pitch | signature key, voice, staff), id suffix,
+   refs with targets (oid, start of the target copy) *)
 Definition row := (Z * Z * Z * option Z * (Z * Z * Z) * Z * list (Z * list (option (Z * Z))))%type.
 
 Definition target_start (all : list nobj) (t : Z * Z) : Z :=
@@ -479,59 +540,143 @@ Definition row_of (upd : bool) (all : list nobj) (n : nobj) : row :=
   (n_id n, n_cls n, n_start n, n_end n, n_attrs n, (if upd then id_suffix all n else 0),
    map (fun r => (fst r, map (option_map (fun t => (fst t, target_start all t))) (snd r))) (n_refs n)).
 
+(* constructors for the case files (typed applications elaborate much faster than nested pairs) *)
+Definition mkRow (i c s : Z) (e : option Z) (p v f x : Z) (r : list (Z * list (option (Z * Z)))) : row :=
+  (i, c, s, e, (p, v, f), x, r).
+Definition mkRef (a : Z) (l : list (option (Z * Z))) : Z * list (option (Z * Z)) := (a, l).
+Definition mkT (i s : Z) : option (Z * Z) := Some (i, s).
+Definition mkORef (a : Z) (l : list Z) : Z * list Z := (a, l).
+Definition mkQ (t q : Z) : Z * Z := (t, q).
+
 Definition row_key (r : row) : Z * Z := match r with (i, _, s, _, _, _, _) => (s, i) end.
+Definition row_cls (r : row) : Z := match r with (_, c, _, _, _, _, _) => c end.
+Definition row_start (r : row) : Z := match r with (_, _, s, _, _, _, _) => s end.
+Definition row_sigkey (r : row) : Z := match r with (_, _, _, _, (p, _, _), _, _) => p end.
 Fixpoint rinsert (x : row) (l : list row) : list row :=
   match l with [] => [x] | y :: r => if pair_le (row_key x) (row_key y) then x :: l else y :: rinsert x r end.
 Definition rsort (l : list row) : list row := fold_right rinsert [] l.
 
 Definition opt_eqb {A} (eqb : A -> A -> bool) (a b : option A) : bool :=
   match a, b with Some x, Some y => eqb x y | None, None => true | _, _ => false end.
-Definition zz_eqb (a b : Z * Z) : bool := (fst a =? fst b) && (snd a =? snd b).
+(* references are compared without their empty (None) slots: the property asks that references
+   stay inside the copy, not that a slot is kept for a partner that was not copied *)
 Definition ref_eqb (a b : Z * list (option (Z * Z))) : bool :=
-  (fst a =? fst b) && list_eqb (opt_eqb zz_eqb) (snd a) (snd b).
+  (fst a =? fst b) && list_eqb (opt_eqb zz_eqb) (filter is_some (snd a)) (filter is_some (snd b)).
+(* an attribute without a (non-None) reference is the same as no entry for that attribute *)
+Definition live_refs (r : list (Z * list (option (Z * Z)))) : list (Z * list (option (Z * Z))) :=
+  filter (fun x => existsb is_some (snd x)) r.
 Definition row_eqb (a b : row) : bool :=
   match a, b with
   | (i1, c1, s1, e1, (p1, v1, f1), x1, r1), (i2, c2, s2, e2, (p2, v2, f2), x2, r2) =>
       (i1 =? i2) && (c1 =? c2) && (s1 =? s2) && zopt_eqb e1 e2 && (p1 =? p2) && (v1 =? v2) && (f1 =? f2)
-      && (x1 =? x2) && list_eqb ref_eqb r1 r2
+      && (x1 =? x2) && list_eqb ref_eqb (live_refs r1) (live_refs r2)
   end.
 
-(* rows of the model's variant for a path; clefs excluded (see design.d/C09.md) *)
-Definition variant_rows (objs : list obj) (segs : list seg) (p : list Z) (upd : bool) : option (list row) :=
+(* multiset inclusion (small lists only) *)
+Fixpoint remove_row (x : row) (l : list row) : option (list row) :=
+  match l with
+  | [] => None
+  | y :: r => if row_eqb x y then Some r else option_map (cons y) (remove_row x r)
+  end.
+Fixpoint sub_rows (a b : list row) : bool :=
+  match a with
+  | [] => true
+  | x :: r => match remove_row x b with Some b' => sub_rows r b' | None => false end
+  end.
+
+(* the classes compared row by row: everything except time/key signatures (compared through the
+   signature in force), fermatas (the extra copy at a segment end is optional) and clefs *)
+Definition is_exact_cls (c : Z) : bool :=
+  negb ((c =? cls_timesig) || (c =? cls_keysig) || (c =? cls_clef) || (c =? cls_fermata)).
+
+(* sequence of signature changes of class c: (start, key) with repeats of the key in force dropped *)
+Definition sig_seq (c : Z) (rows : list row) : qtab :=
+  qnorm (map (fun r => (row_start r, row_sigkey r)) (filter (fun r => row_cls r =? c) rows)).
+
+(* every fermata sitting at the end of a visited segment, whatever its `ref` *)
+Fixpoint fermata_allowed_go (objs : list obj) (vs : list (Z * Z)) (k off : Z) : list nobj :=
+  match vs with
+  | [] => []
+  | (s, e) :: r =>
+      map (raw_copy k (off - s) true) (filter (fun o => (o_cls o =? cls_fermata) && (o_start o =? e)) objs)
+      ++ fermata_allowed_go objs r (k + 1) (off + (e - s))
+  end.
+
+Record variant_rows_t := mkVR {
+  vr_exact : list row;            (* rows of the row-by-row classes, sorted *)
+  vr_ferm_required : list row;    (* regular fermata copies *)
+  vr_ferm_allowed : list row;     (* regular copies + one extra copy per fermata at a segment end *)
+  vr_all : list row }.            (* all model rows (signatures as the implementation's rule keeps them) *)
+
+Definition variant_rows (objs : list obj) (segs : list seg) (p : list Z) (upd : bool) : option variant_rows_t :=
   match visits_of segs p with
   | None => None
   | Some vs =>
       let all := variant objs vs in
-      Some (rsort (map (row_of upd all) (filter (fun n => negb (n_cls n =? cls_clef)) all)))
+      let rows := rsort (map (row_of upd all) (filter (fun n => negb (n_cls n =? cls_clef)) all)) in
+      let freq := map (row_of upd all) (filter (fun n => (n_cls n =? cls_fermata) && negb (n_extra n)) all) in
+      let fext := map (row_of false []) (map (clip_end (total_len vs)) (fermata_allowed_go objs vs 0 0)) in
+      Some (mkVR (filter (fun r => is_exact_cls (row_cls r)) rows) freq (freq ++ fext) rows)
   end.
 
+Definition rows_agree (m : variant_rows_t) (impl : list row) : bool :=
+  let fi := filter (fun r => row_cls r =? cls_fermata) impl in
+  list_eqb row_eqb (vr_exact m) (filter (fun r => is_exact_cls (row_cls r)) impl)
+  && sub_rows (vr_ferm_required m) fi && sub_rows fi (vr_ferm_allowed m)
+  && list_eqb zz_eqb (sig_seq cls_timesig (vr_all m)) (sig_seq cls_timesig impl)
+  && list_eqb zz_eqb (sig_seq cls_keysig (vr_all m)) (sig_seq cls_keysig impl).
+
+Definition seg_bounds_eqb (a b : seg) : bool :=
+  (s_id a =? s_id b) && (s_start a =? s_start b) && (s_end a =? s_end b).
 Definition seg_eqb (a b : seg) : bool :=
-  (s_id a =? s_id b) && (s_start a =? s_start b) && (s_end a =? s_end b)
+  seg_bounds_eqb a b
   && zlist_eqb (s_to a) (s_to b) && zlist_eqb (s_await a) (s_await b) && (s_type a =? s_type b).
 
-Definition paths_eqb (a b : option (list (list Z))) : bool := opt_eqb (list_eqb zlist_eqb) a b.
+(* path lists are compared as sets of paths: the order in which the variants are enumerated is
+   not part of the property *)
+Fixpoint zlist_leb (a b : list Z) : bool :=
+  match a, b with
+  | [], _ => true
+  | _ :: _, [] => false
+  | x :: r, y :: q => (x <? y) || ((x =? y) && zlist_leb r q)
+  end.
+Fixpoint linsert (x : list Z) (l : list (list Z)) : list (list Z) :=
+  match l with [] => [x] | y :: r => if zlist_leb x y then x :: l else y :: linsert x r end.
+Definition lsort (l : list (list Z)) : list (list Z) := fold_right linsert [] l.
+Definition pathlists_eqb (a b : list (list Z)) : bool :=
+  list_eqb zlist_eqb a b || ((length a =? length b)%nat && list_eqb zlist_eqb (lsort a) (lsort b)).
+Definition paths_eqb (a b : option (list (list Z))) : bool := opt_eqb pathlists_eqb a b.
 
 (* one correspondence case *)
 Definition FUEL : nat := 64.
 
-Record vcase := mkV { v_path : list Z; v_upd : bool; v_rows : list row }.
+Record vcase := mkV { v_path : list Z; v_upd : bool; v_rows : list row; v_qd : qtab }.
 
 Record ccase := mkC {
   c_marks : marks;
   c_objs : list obj;
+  c_qd : qtab;                                         (* the original's quarter durations *)
   c_segs : list seg;                                   (* implementation: part.segments *)
   c_paths : list (bool * bool * bool * option (list (list Z)));   (* norep, allrep, ignore_leaps, Path.path lists *)
   c_variants : list vcase }.                           (* implementation: dumps of unfolded parts *)
 
-Definition check_segs (c : ccase) : bool := list_eqb seg_eqb (make_segments (c_marks c)) (c_segs c).
+(* segment boundaries (observable through every unfolded part) *)
+Definition check_segs (c : ccase) : bool := list_eqb seg_bounds_eqb (make_segments (c_marks c)) (c_segs c).
+(* destinations / leap types as partitura stores them: diagnostic only (the paths are what counts) *)
+Definition check_seg_tables (c : ccase) : bool := list_eqb seg_eqb (make_segments (c_marks c)) (c_segs c).
 Definition check_paths (c : ccase) : bool :=
   forallb (fun q => match q with (nr, ar, ig, ps) =>
                       paths_eqb (get_paths FUEL (make_segments (c_marks c)) nr ar ig) ps end) (c_paths c).
 Definition check_variants (c : ccase) : bool :=
   forallb (fun v => match variant_rows (c_objs c) (make_segments (c_marks c)) (v_path v) (v_upd v) with
-                    | Some rows => list_eqb row_eqb rows (v_rows v)
+                    | Some m => rows_agree m (v_rows v)
+                    | None => false end) (c_variants c).
+Definition check_qd (c : ccase) : bool :=
+  forallb (fun v => match visits_of (make_segments (c_marks c)) (v_path v) with
+                    | Some vs => list_eqb zz_eqb (qnorm (variant_qd 1 (c_qd c) vs)) (qnorm (v_qd v))
                     | None => false end) (c_variants c).
 
-(* 0 = agree; 1 segments differ; 2 paths differ; 3 a variant differs *)
+(* 0 = agree; 1 segment boundaries differ; 2 paths differ; 3 a variant differs; 4 quarter durations differ *)
 Definition check_case (c : ccase) : Z :=
-  if negb (check_segs c) then 1 else if negb (check_paths c) then 2 else if negb (check_variants c) then 3 else 0.
+  if negb (check_segs c) then 1 else if negb (check_paths c) then 2 else if negb (check_variants c) then 3
+  else if negb (check_qd c) then 4 else 0.
